@@ -153,9 +153,13 @@ def tlc_run(name, root, consts, inv=(), prop=(), view=None, constraint=None, act
 # replaying rows on the code
 # ---------------------------------------------------------------------------------------------
 def replay_rows(binpath, rows_file, ptype, coll="map", ctx="plain", max_mismatch=40, timeout=900, extra=(), cmdname="replay"):
-    out = os.path.join(WORK, f"rep_{os.path.basename(os.path.dirname(rows_file))}_{ptype}_{coll}_{ctx.replace(':','')}.json")
+    tagbase = f"{os.path.basename(os.path.dirname(rows_file))}_{ptype}_{coll}_{ctx.replace(':','')}"
+    out = os.path.join(WORK, f"rep_{tagbase}.json")
+    side = os.path.join(WORK, f"side_{tagbase}.ndjson")
     cmd = [binpath, cmdname, "--type", ptype, "--coll", coll, "--ctx", ctx, "--rows", rows_file,
            "--out", out, "--max-mismatch", str(max_mismatch)] + list(extra)
+    if cmdname == "replay" and coll == "map":
+        cmd += ["--side", side]
     t0 = time.time()
     try:
         p = subprocess.run(cmd, capture_output=True, text=True, timeout=timeout)
@@ -163,12 +167,31 @@ def replay_rows(binpath, rows_file, ptype, coll="map", ctx="plain", max_mismatch
         # the code under test did not terminate: that is data for C20, reported by the caller
         return dict(ptype=ptype, coll=coll, ctx=ctx, diverged=True, executed=0, mismatches=[], mismatch_count=0,
                     per_action={}, states=0, samples=[])
+    if p.returncode == 3:
+        d = json.load(open(out))
+        return dict(ptype=ptype, coll=coll, ctx=ctx, diverged=True, event=d.get("event"), executed=0, mismatches=[],
+                    mismatch_count=0, per_action={}, states=0, samples=[])
     if p.returncode != 0:
         raise ToolError(f"harness replay failed rc={p.returncode}: {p.stderr[-2000:]}")
     r = json.load(open(out))
     r["ctx"] = ctx
     r["wall"] = round(time.time() - t0, 1)
     os.remove(out)
+    # states the path replay could not reproduce: their observers are judged observation-relatively by TLC
+    r["side_rejections"] = []
+    if os.path.exists(side):
+        if os.path.getsize(side) > 0:
+            d = _trace_dir("side_" + tagbase)
+            # at most 300 such states are examined
+            with open(side) as f:
+                lines = f.readlines()[:300]
+            tf = os.path.join(d, "trace.ndjson")
+            open(tf, "w").write("".join(lines))
+            res = validate_trace(dict(dir=d, trace=tf, ptype=ptype, profile="side"), max_rounds=4)
+            r["side_rejections"] = res["rejections"]
+            r["side_lines_ok"] = res["lines_ok"]
+            shutil.rmtree(d, ignore_errors=True)
+        os.remove(side)
     return r
 
 
@@ -202,6 +225,9 @@ def record_trace(binpath, tag, ptype, profile, runs, events, sd, timeout=600):
         p = subprocess.run(cmd, capture_output=True, text=True, timeout=timeout)
     except subprocess.TimeoutExpired:
         return dict(dir=d, trace=tf, diverged=True, ptype=ptype, profile=profile)
+    if p.returncode == 3:
+        dv = json.loads(p.stdout.strip().split("\n")[-1])
+        return dict(dir=d, trace=tf, diverged=True, event=dv.get("event"), ptype=ptype, profile=profile)
     if p.returncode != 0:
         raise ToolError(f"trace driver failed rc={p.returncode}: {p.stderr[-1500:]}")
     info = json.loads(p.stdout.strip().split("\n")[-1])
@@ -259,11 +285,84 @@ def validate_trace(info, max_rounds=6):
             json.loads(cur[i]).get("a") == "Reset" for i in range(k)) else 0
         res["rejections"].append(dict(line=k, event=ev, expected=exp, steps=[json.loads(x) for x in cur[start:k - 1]],
                                       diag_tail=None if exp is not None else dout[-1500:]))
-        # resynchronise at the next Reset
+        # resynchronise at the next Reset; the observation-relative lines of the abandoned run are
+        # self-contained and stay in (without the len facet, whose drift bookkeeping is lost)
         nxt = next((i for i in range(k, len(cur)) if json.loads(cur[i]).get("a") == "Reset"), None)
-        cur = cur[nxt:] if nxt is not None else []
+        end = nxt if nxt is not None else len(cur)
+        keep = []
+        for i in range(k, end):
+            e = json.loads(cur[i])
+            if e.get("a") == "Obs":
+                e["nolen"] = True
+                keep.append(json.dumps(e))
+        cur = keep + (cur[nxt:] if nxt is not None else [])
     res["rounds"] = rounds
     return res
+
+
+def alg_check(binpath, ptype, mode, sd, max_tw=3):
+    """C17: log evaluations of the real Prefix operations and validate them against Bits.tla / AlgV.tla."""
+    d = os.path.join(WORK, f"av_{ptype}")
+    shutil.rmtree(d, ignore_errors=True)
+    os.makedirs(d)
+    for f in os.listdir(SPEC):
+        if f.endswith(".tla"):
+            shutil.copy(os.path.join(SPEC, f), d)
+    open(os.path.join(d, "AV.tla"), "w").write(f"---- MODULE AV ----\nEXTENDS AlgV\nc_MaxTW == {max_tw}\n====\n")
+    open(os.path.join(d, "AV.cfg"), "w").write("CONSTANTS MaxTW <- c_MaxTW\nINIT Init\nNEXT Next\nCONSTRAINT Track\nPOSTCONDITION Accepted\nCHECK_DEADLOCK FALSE\n")
+    tf = os.path.join(d, "alg.ndjson")
+    p = subprocess.run([binpath, "alg", "--type", ptype, "--seed", str(sd), "--mode", mode, "--trace", tf],
+                       capture_output=True, text=True, timeout=1800)
+    if p.returncode != 0:
+        raise ToolError(f"alg driver failed: {p.stderr[-1500:]}")
+    info = json.loads(p.stdout.strip().split("\n")[-1])
+    env = dict(os.environ, TRACE=tf)
+    env.pop("JAVA_TOOL_OPTIONS", None)
+    cmd = TRACE_JAVA + ["-metadir", os.path.join(d, "md"), "-cleanup", "-noGenerateSpecTE", "-config", "AV.cfg", "AV.tla"]
+    out = subprocess.run(cmd, cwd=d, env=env, capture_output=True, text=True, timeout=1800).stdout
+    info["accepted"] = "No error has been found" in out
+    info["rejected_line"] = None
+    if not info["accepted"]:
+        m = re.search(r'TRACE-REJECTED-AT-LINE", (\d+), "OF", (\d+)', out)
+        if not m:
+            raise ToolError("AlgV validation failed without a verdict:\n" + out[-2000:])
+        k = int(m.group(1))
+        with open(tf) as f:
+            for i, ln in enumerate(f, 1):
+                if i == k:
+                    info["rejected_line"] = json.loads(ln)
+                    break
+        info["lines_ok"] = k - 1
+    else:
+        info["lines_ok"] = info["lines"]
+    with open(tf) as f:
+        info["sample"] = json.loads(f.readline())
+    shutil.rmtree(d, ignore_errors=True)
+    return info
+
+
+def alg_laws(max_tw=3):
+    """TLC checks the laws of Bits.tla exhaustively for all widths up to max_tw."""
+    d = os.path.join(WORK, "av_laws")
+    shutil.rmtree(d, ignore_errors=True)
+    os.makedirs(d)
+    for f in os.listdir(SPEC):
+        if f.endswith(".tla"):
+            shutil.copy(os.path.join(SPEC, f), d)
+    open(os.path.join(d, "AL.tla"), "w").write(f"---- MODULE AL ----\nEXTENDS AlgV\nc_MaxTW == {max_tw}\n====\n")
+    open(os.path.join(d, "AL.cfg"), "w").write("CONSTANTS MaxTW <- c_MaxTW\nINIT LawInit\nNEXT LawNext\nCHECK_DEADLOCK FALSE\n")
+    open(os.path.join(d, "empty.ndjson"), "w").write('{"a":"none"}\n')
+    env = dict(os.environ, TRACE=os.path.join(d, "empty.ndjson"))
+    env.pop("JAVA_TOOL_OPTIONS", None)
+    cmd = TRACE_JAVA + ["-metadir", os.path.join(d, "md"), "-cleanup", "-noGenerateSpecTE", "-config", "AL.cfg", "AL.tla"]
+    t0 = time.time()
+    out = subprocess.run(cmd, cwd=d, env=env, capture_output=True, text=True, timeout=1800).stdout
+    ok = "No error has been found" in out
+    shutil.rmtree(d, ignore_errors=True)
+    if not ok:
+        raise ToolError("the laws of Bits.tla fail: " + out[-1500:])
+    n = sum(2 * (2 ** (k + 1) - 1) for k in range(1, max_tw + 1))
+    return dict(max_tw=max_tw, prefixes_in_universes=n, wall=round(time.time() - t0, 1))
 
 
 OBS_FACETS = {"get": "Get", "kv": "GetKV", "has": "Contains", "lpm": "Lpm", "spm": "Spm", "cover": "Cover", "children": "Children"}
@@ -366,7 +465,7 @@ def _core_items(act, ret):
 def pair_owners(mm):
     act = mm["e"].get("a", "?")
     o = set()
-    if mm["kind"] == "pan":
+    if mm["kind"] in ("pan", "diverged"):
         return {"C20", PAIR_OWNER.get(act, "C05")}
     base = PAIR_OWNER.get(act, "C05")
     if act in ("Union", "Diff", "DiffMut"):
@@ -426,7 +525,7 @@ def owners(mm):
         if act in MUT_TRAVERSALS:
             o.add("C13")
         return o
-    if kind == "pan":
+    if kind in ("pan", "diverged"):
         return {"C20", RET_OWNER.get(act, "C01")}
     if kind == "entries":
         o = {"C01"}
